@@ -196,6 +196,18 @@ def signedDecVal : Bytes → Int
   | 45 :: d => - (decVal d : Int)
   | d => (decVal d : Int)
 
+/-! ### flat documents (the proved instance of C15_lexemes) -/
+
+/-- root-level `key value` pairs written with `write_unquoted`, the `=` left implicit -/
+def flatCalls : List (Bytes × Bytes) → List Call
+  | [] => []
+  | (k, v) :: r => .unquoted k :: .unquoted v :: flatCalls r
+
+/-- the text such a document must be: `k=v` lines, every line but the first preceded by `\n` -/
+def flatLines : List (Bytes × Bytes) → Bool → Bytes
+  | [], _ => []
+  | (k, v) :: r, first => (if first then [] else [10]) ++ k ++ [61] ++ v ++ flatLines r false
+
 /-! ### tapes with positions -/
 
 /-- a tape token as the parser produces it: the token plus where its scalar sits in the
